@@ -225,7 +225,7 @@ theorem AllPre_take {P : FS → Ghost σ → Prop} {fs : FS} {G : Ghost σ} {es 
 def Op.harmless : Op → Bool
   | .createExcl n | .openTrunc n | .append n _ | .fsync n | .unlink n => n != .pickle && n != .new
   | .rename a b => a != .pickle && a != .new && b != .pickle && b != .new
-  | .stat _ | .read _ => true
+  | .stat _ | .read _ | .failed _ _ => true
 
 theorem harmless_pickle (fs : FS) (o : Op) (h : o.harmless = true) :
     (applyOp fs o) .pickle = fs .pickle ∧ (applyOp fs o) .new = fs .new := by
@@ -242,6 +242,7 @@ theorem harmless_pickle (fs : FS) (o : Op) (h : o.harmless = true) :
     cases hf : fs a <;> cases a <;> cases b <;> simp_all [Op.harmless, applyOp, FS.set]
   | stat n => simp [applyOp]
   | read n => simp [applyOp]
+  | failed k n => simp [applyOp]
 
 theorem save_pre (c : Cfg σ μ) (fs : FS) (G : Ghost σ) (s : σ) (h : J c fs G) :
     AllPre (Inv c) fs G (saveEvs c s) ∧ J c (applyEvs fs (saveEvs c s)) (G.run (saveEvs c s)) := by
